@@ -25,10 +25,14 @@ from __future__ import annotations
 
 import itertools
 
+import os
+
 from .. import lib_sqw as L
 from .. import sqwdecode as D
 from ..core import MachineryError
-from ..tlc import require_ok, write_ndjson
+from ..tlc import require_actions, require_ok, write_ndjson
+
+WORKERS = int(os.environ.get('VERIF_TLC_WORKERS', '16'))  # fewer while sharing the machine
 
 RULE = ('configuration = (ordered subset of the 5 builder calls, pixel count, chunk size or default, runs, '
         'histogram shape, byte order, target kind, title/file name); non-trivial = the builder returned and the '
@@ -65,6 +69,53 @@ def _brief(cfg):
         'dnd_shape': cfg['dnd']['shape'], 'pix_recipe': cfg['pix']}
 
 
+def _synthetic_event():
+    """A consistent layout built by hand from the format description (independent of the code under test)."""
+    names = [('', 'main_header', 'main_header_cl'), ('', 'detpar', 'unique_references_container'),
+             ('experiment_info', 'instruments', 'unique_references_container')]
+    sizes = [100, 50, 70]
+    batlen = 8 + sum(4 + len('data_block') + 4 + len(n1) + 4 + len(n2) + 16 for n1, n2, _ in names)
+    pos, bat, dec = 26 + batlen, [], []
+    for (n1, n2, sn), size in zip(names, sizes, strict=True):
+        bat.append({'type': 'data_block', 'n1': n1, 'n2': n2, 'pos': pos, 'size': size, 'locked': 0})
+        dec.append({'ok': True, 'consumed': size, 'sn': sn, 'nrows': -1, 'npix': -1, 'shape': [], 'err': ''})
+        pos += size
+    return {'tid': 0, 'gid': 1, 'calls': ['inst', 'det'], 'npix': 0, 'shape': [], 'chunk': 8192, 'bo': 'little',
+            'where': 'bytesio', 'out': 'ok', 'flen': pos, 'hdrok': True, 'dec_bo': 'little',
+            'hdr': {'name': 'horace', 'v4': True, 'type': 1, 'ndims': 0, 'len': 26}, 'batok': True,
+            'batsize': batlen - 4, 'batbegin': 26, 'batend': 26 + batlen, 'bat': bat, 'dec': dec,
+            'open': {'out': 'ok', 'bo': 'little', 'name': 'horace', 'v4': True, 'type': 1, 'ndims': 0,
+                     'names': [[n1, n2] for n1, n2, _ in names]},
+            'haslog': True, 'log': [[0, 26, 1], [26, batlen, 1], [26 + batlen, 220, 1]]}
+
+
+def _corruption_control(ctx):
+    """The trace specification must accept a hand-made consistent layout and reject it when the file
+    length is off by one byte, resp. when the table lists the blocks in another order than its sibling of
+    the same configuration."""
+    import copy
+
+    g = _synthetic_event()
+    a = copy.deepcopy(g)
+    a['flen'] += 1
+    b = copy.deepcopy(g)
+    b['bat'][1], b['bat'][2] = b['bat'][2], b['bat'][1]
+    b['dec'][1], b['dec'][2] = b['dec'][2], b['dec'][1]
+    b['open']['names'][1], b['open']['names'][2] = b['open']['names'][2], b['open']['names'][1]
+    seq = [g, a, copy.deepcopy(g), b]
+    for i, e in enumerate(seq):
+        e['tid'] = i
+    tf = ctx.tmp / 'c12-corrupt.ndjson'
+    write_ndjson(tf, seq)
+    tr = ctx.tlc('sqw/Trace_SqwBuilder.tla', workers=1, env={'TRACE_FILE': str(tf)}, timeout=300, count=False)
+    require_ok(ctx, tr, 'Trace_SqwBuilder (corruption control)')
+    rej = {r[1]: r[3] for r in tr.tagged('REJECT')}
+    if set(rej) != {2, 4} or 'extents_end_at_eof' not in rej[2] \
+            or rej[4] != ['table_order_independent_of_call_order']:
+        raise MachineryError(f'corruption control: the trace specification judged {rej}')
+    ctx.extra['corruption_control'] = 'hand-made layout accepted; file length +1 and permuted table rejected'
+
+
 def run(ctx):
     ctx.rule = RULE
     ctx.assume('the container layout is the one of docs/developer/file-formats/sqw.md and the literal header '
@@ -77,13 +128,15 @@ def run(ctx):
 
     # ---- 1. design: exhaustive model + negative controls ------------------------------------------
     cfgname = 'MC_SqwBuilder_thorough.cfg' if ctx.thorough else 'MC_SqwBuilder.cfg'
-    res = ctx.tlc('sqw/MC_SqwBuilder.tla', cfgname, timeout=1500)
+    res = ctx.tlc('sqw/MC_SqwBuilder.tla', cfgname, timeout=1500, workers=WORKERS, coverage=True)
     require_ok(ctx, res, 'SqwBuilder model')
+    require_actions(res, ['AddPixelData', 'AddEmptyDndData', 'AddSimple', 'Create', 'WriteHeader', 'SerializeBlocks',
+                          'WriteBAT', 'WriteRegular', 'WriteDnd', 'WritePixHead', 'PixChunk', 'PixDone'])
     behs = res.tagged('BEH')
     if len(behs) < 1000:
         raise MachineryError(f'only {len(behs)} behaviours exported by TLC')
     for neg in ('rows', 'callorder', 'nopatch'):
-        ctx.tlc('sqw/MC_SqwBuilder.tla', f'Neg_SqwBuilder_{neg}.cfg', expect_error=True, timeout=300)
+        ctx.tlc('sqw/MC_SqwBuilder.tla', f'Neg_SqwBuilder_{neg}.cfg', expect_error=True, timeout=300, workers=WORKERS)
     ctx.extra['behaviours_exported'] = len(behs)
 
     events, cfgs = [], {}
@@ -96,7 +149,7 @@ def run(ctx):
         key = (frozenset(order), npix, tuple(shape), chunk, bo)
         groups.setdefault(key, []).append((tuple(order), nblocks, pixsize, dndsize, nchunks))
     keys = sorted(groups, key=lambda k: (sorted(k[0]), k[1:]))
-    budget = 6000 if ctx.thorough else 1100
+    budget = 12000 if ctx.thorough else 900
     # stratified: every call SET with every (npix, chunk) at least once; then random fill
     chosen = []
     seen_strata = set()
@@ -108,6 +161,8 @@ def run(ctx):
             seen_strata.add(stratum)
             seen_strata.add(small)
             chosen.append(k)
+    chosen_set = set(chosen)
+    chosen += [k for k in keys if k not in chosen_set]   # then the remaining groups until the budget is used
     replayed = 0
     m1_bad = 0
     for k in chosen:
@@ -140,8 +195,8 @@ def run(ctx):
     ctx.extra['behaviour_groups'] = gid
 
     # ---- 3. code -> spec: random configurations ---------------------------------------------------
-    nrand_small = 500 if ctx.thorough else 120
-    nrand_big = 160 if ctx.thorough else 24
+    nrand_small = 1500 if ctx.thorough else 120
+    nrand_big = 300 if ctx.thorough else 24
     for i in range(nrand_small + nrand_big):
         cfg = L.random_config(rng, thorough=ctx.thorough, small=i < nrand_small)
         gid += 1
@@ -177,6 +232,7 @@ def run(ctx):
         raise MachineryError(f'trace validation incomplete: {done} vs {len(events)} events')
     ctx.traces(len(events))
     byline = {i + 1: e for i, e in enumerate(events)}
+    _corruption_control(ctx)
     for _, line, rtid, clauses in tr.tagged('REJECT'):
         ev = byline[line]
         cfg = cfgs[rtid]
